@@ -166,7 +166,8 @@ class Exec(object):
                 raise Abort()
 
     def _trace(self, frame, event, arg):
-        if frame.f_code.co_filename in self.traced:
+        tr = self.traced
+        if (tr(frame) if callable(tr) else frame.f_code.co_filename in tr):
             if self.opcode:
                 frame.f_trace_opcodes = True
             return self._ltrace
